@@ -1085,7 +1085,7 @@ class PlanLog:
                 old_names = list(old_rvs.epsilons.parameter_names)
                 new_names = list(model.random_variables.epsilons.parameter_names)
             inv = {'table': [], 'records': records, 'lens': [len(r) for r in records], 'old_names': old_names,
-                   'new_names': new_names, 'log': [], 'raised': False, 'depth': 0}
+                   'new_names': new_names, 'log': [], 'raised': False, 'depth': 0, 'created': []}
             inv['diff'] = [(o, key_of(inv, d)) for o, d in rvs_diff]
             inv['in_old'] = [k for k, d in enumerate(inv['table']) if (d in old_rvs)]
             prev, me.cur = me.cur, inv
@@ -1111,14 +1111,42 @@ class PlanLog:
             finally:
                 inv['depth'] -= 1
 
+        def created(is_top, inv, is_block, model, rv, eta_number, f):
+            """Run a create_omega_* call, recording its inputs as the code reads them and its result."""
+            obs = None
+            if is_top:
+                try:
+                    k = len(rv)
+                    v = rv.variance
+                    names = [str(v)] if k == 1 else [str(v[r, c]) for r in range(k) for c in range(r + 1)]
+                    ps = [model.parameters[n] for n in names]
+                    first = True
+                    if rv.level == 'IOV':
+                        first = rv == next(filter(lambda iov: iov.parameter_names == rv.parameter_names,
+                                                  model.random_variables.iov))
+                    obs = {'block': is_block, 'level': LEVELS[rv.level.upper()], 'first': bool(first), 'size': k,
+                           'elems': [(float(p.init), p.name, bool(p.fix)) for p in ps], 'eta': eta_number,
+                           'root': None}
+                    inv['created'].append(obs)
+                except Exception:
+                    obs = None
+            rec = f()
+            if obs is not None:
+                obs['root'] = rec.root
+            return rec
+
         def single(model, rv, eta_number):
             inv = me.cur
-            return call(inv, ('single', key_of(inv, rv) if top(inv) else 0, eta_number), o_single, model, rv, eta_number)
+            t = top(inv)
+            return call(inv, ('single', key_of(inv, rv) if t else 0, eta_number),
+                        lambda: created(t, inv, False, model, rv, eta_number, lambda: o_single(model, rv, eta_number)))
 
         def block(model, distribution, eta_number):
             inv = me.cur
-            return call(inv, ('block', key_of(inv, distribution) if top(inv) else 0, eta_number), o_block,
-                        model, distribution, eta_number)
+            t = top(inv)
+            return call(inv, ('block', key_of(inv, distribution) if t else 0, eta_number),
+                        lambda: created(t, inv, True, model, distribution, eta_number,
+                                        lambda: o_block(model, distribution, eta_number)))
 
         def rec_index(inv, rec):
             for k, r in enumerate(inv['records']):
@@ -1182,9 +1210,19 @@ def plan_terms(invocations):
                 acts.append(f"(PSingle {pdist_term(e[1], tab[e[1]])} {ct.nat(e[2])})")
             else:
                 acts.append(f"(PBlock {pdist_term(e[1], tab[e[1]])} {ct.nat(e[2])})")
+        cre = []
+        for o in inv['created']:
+            tab = {}
+            for x, _, _ in o['elems']:
+                tab[Fraction(x)] = str(x)
+            tabt = ct.lst([ct.pair(ct.q(k), text_term(t)) for k, t in tab.items()])
+            elems = ct.lst([ct.tup(ct.q(Fraction(x)), text_term(n), ct.boolean(fx)) for x, n, fx in o['elems']])
+            root = f"(ROk {node_term(o['root'])})" if o['root'] is not None else "(RErr 3%nat)"
+            cre.append(f"(mkCO {ct.boolean(o['block'])} {tabt} {o['level']}%nat {ct.boolean(o['first'])} "
+                       f"{ct.nat(o['size'])} {elems} {ct.nat(o['eta'])} {root})")
         out.append(f"(mkPS {ct.lst([ct.nat(k) for k in inv['in_old']])} {ct.lst([text_term(n) for n in inv['old_names']])} "
                    f"{ct.lst([text_term(n) for n in inv['new_names']])} {ct.lst([ct.nat(n) for n in inv['lens']])} "
-                   f"{dterm} {ct.boolean(inv['raised'])} {ct.lst(acts)})")
+                   f"{dterm} {ct.boolean(inv['raised'])} {ct.lst(acts)} {ct.lst(cre)})")
     return ct.lst(out)
 
 
@@ -1212,6 +1250,14 @@ def apply_hist_op(model, op):
         return md.add_iiv(model, [op['q']], 'exp')
     if k == 'add_iov':
         return md.add_iov(model, 'OCC', list_of_parameters=op['ps'])
+    if k == 'add_iov_fixed':
+        # inter-occasion variability whose variance parameter is fixed from the start, written in ONE
+        # update_source (the random variables / parameters / statements of add_iov, with OMEGA_IOV_* fixed)
+        from pharmpy.model import Parameters
+        m2 = md.add_iov(model, 'OCC', list_of_parameters=op['ps'])
+        ps = Parameters.create([p.replace(fix=True) if p.name.startswith('OMEGA_IOV') else p for p in m2.parameters])
+        return model.replace(random_variables=m2.random_variables, parameters=ps, statements=m2.statements,
+                             datainfo=m2.datainfo, dataset=m2.dataset).update_source()
     if k == 'remove_iov':
         return md.remove_iov(model)
     if k == 'unfix':
